@@ -3,7 +3,8 @@ import re
 
 from sa.engine.api import *
 
-UNITS = ["primitives/transaction.cpp", "primitives/block.cpp"]
+UNITS = ["primitives/transaction.cpp", "primitives/block.cpp", "addrdb.cpp"]
+CORE_UNITS = UNITS[:2]          # addrdb.cpp is loaded separately: it holds an instantiation of CAddress::SerializationOps
 EXPLANATION = ("SYMMETRY / sequence-vs-table rule. SerializeTransaction and UnserializeTransaction (templates in primitives/transaction.h, all instances seen by "
                "the units) are extracted as ordered lists of (stream item, loop depth, guard) including the writes of the local `flags` and the throws; "
                "each list must equal the BIP144 table exactly (guards by truth table over canonical atoms): writer = version, [flags|=1 iff allow_witness && "
@@ -14,7 +15,11 @@ EXPLANATION = ("SYMMETRY / sequence-vs-table rule. SerializeTransaction and Unse
                "loops cover every input index; the dummy vin is an empty vector. SERIALIZE_METHODS classes (one body for both directions) are "
                "enumerated with their field order: COutPoint, CTxIn, CTxOut, CBlockHeader, CBlock. ReadCompactSize: per marker the width read and the "
                "non-canonical rung (< 253, < 0x10000, < 0x100000000) and the MAX_SIZE rung, cross-checked against WriteCompactSize's thresholds and "
-               "markers. txid = hash of TX_NO_WITNESS serialisation, wtxid = hash of TX_WITH_WITNESS serialisation (txid if no witness).")
+               "markers. txid = hash of TX_NO_WITNESS serialisation, wtxid = hash of TX_WITH_WITNESS serialisation (txid if no witness). Formatter table of "
+               "CAddress (BIP155): nTime through LossyChronoFormatter<uint32_t>; nServices, exactly in the V2 branch, as a compact size WITHOUT range check "
+               "(CompactSizeFormatter<false>: it is a 64-bit bit field, not a length) via a local copied from / cast back to obj.nServices, and exactly in the V1 branch "
+               "as CustomUintFormatter<8>; in all loaded units a range-checked compact size (CompactSizeFormatter<true> / COMPACTSIZE) is never applied to a value "
+               "that is copied from or into an object field.")
 ASSUMPTIONS = ["stream operator<< / operator>> of the same type are inverse for scalars, vectors and scripts (serialize.h formatters, not claimed here)",
                "HashWriter::GetHash is double SHA-256", "ser_readdataN / ser_writedataN move N bits little-endian"]
 CLAIM = dict(
@@ -25,9 +30,7 @@ CLAIM = dict(
          "non-canonical and oversized compact sizes are rejected exactly at the canonical boundaries which the writer uses, and that txid/wtxid hash the "
          "no-witness/with-witness serialisations.",
     note="Not decided: text encodings (hex, base58, base64, base32, money, integer strings: algorithmic, N/A part); P2P message payload classes other than tx/block/header; "
-         "the scalar/vector/script formatters themselves; equality of round-tripped objects as a behavioural fact. Known blind spot: which formatter a field uses "
-         "(e.g. Using<CompactSizeFormatter<false>> vs COMPACTSIZE = <true> for the addrv2 services field of CAddress) cannot be decided, because the fact format drops "
-         "template arguments of wrapper calls and keeps one instantiation per qualified name.",
+         "the scalar/vector/script formatters themselves; equality of round-tripped objects as a behavioural fact; of the P2P payload classes only CAddress's formatter choices are decided.",
     ref="DESIGN.md §3 C48")
 
 
@@ -139,11 +142,14 @@ def rename_tx(f, fn):
 
 
 def check(ctx):
-    P = ctx.program(UNITS)
+    P = ctx.program(CORE_UNITS)
     transaction(ctx, P)
     fixed_layout(ctx, P)
     compact_size(ctx, P)
     tx_hashes(ctx, P)
+    PA = ctx.program(["addrdb.cpp"])
+    address_formatters(ctx, PA)
+    range_checked_compact_sizes(ctx, [P, PA])
 
 
 # ------------------------------------------------------------------------------------------------
@@ -431,3 +437,98 @@ def tx_hashes(ctx, P):
             okw = okw and contains([".", ["this"], "CTransaction::hash"], e.value) and F.implies(bf, F.parse("!HASWIT"))
     ctx.ob("wtxid/with-witness-serialisation", "PROVENANCE", "the wtxid is HashWriter{} << TX_WITH_WITNESS(*this) -> GetHash(); the txid is reused only when the transaction has no witness",
            okw and n == 1, g.where)
+
+
+# ------------------------------------------------------------------------------------------------
+def _usings(fn):
+    """(stmt, Using-call, formatter text) for every `Using<Formatter>(x)` with explicitly written template arguments."""
+    out = []
+    for st, e in all_exprs(fn.body):
+        for x in subexprs(e):
+            if x[0] == "call" and x[1] == "Using" and call_targs(x):
+                out.append((st, x, re.sub(r"\s+", "", call_targs(x))))
+    return out
+
+
+def address_formatters(ctx, P):
+    fs = [f for f in P.fns("CAddress::SerializationOps") if not f.d.get("dep")]
+    if not fs:
+        raise AnalysisBroken("no instantiation of CAddress::SerializationOps in addrdb.cpp (SERIALIZE_METHODS(CAddress) vanished?)")
+    for f in fs:
+        ctx.used(f)
+        subst = naming(f, P)
+        obj = f.params[0]["n"]
+        NS = [".", ["param", obj], "CAddress::nServices"]
+        us = sites(f, lambda e: e[0] == "call" and e[1] == "Using" and bool(call_targs(e)), P)
+        fmt = lambda s_: re.sub(r"\s+", "", call_targs(s_.expr))
+        guard = lambda s_: F.mk_and([g.formula(subst) for g in s_.guards if g.kind in ("if", "sc", "case")])
+        v2vals = local_values(f, "use_v2")
+        # the flag selecting the encoding
+        flags = {k for s_ in us for k in F.atoms(guard(s_))}
+        if len(flags) != 1:
+            raise AnalysisBroken("CAddress::SerializationOps: the V1/V2 selector is not a single flag (%s)" % sorted(flags))
+        V2 = F.atom(flags.pop())
+        compact = [s_ for s_ in us if fmt(s_).startswith("CompactSizeFormatter<")]
+        ok = len(compact) == 1 and fmt(compact[0]) == "CompactSizeFormatter<false>" and F.equivalent(guard(compact[0]), V2)
+        ctx.ob("CAddress/services-v2-formatter", "TABLE", "in the V2 (BIP155) encoding, and only there, the service bits are a compact size WITHOUT range check "
+               "(Using<CompactSizeFormatter<false>>): they are a 64-bit bit field, not a length, so values above MAX_SIZE must deserialize", ok,
+               compact[0].where if compact else f.where, {"formatters": [(s_.line, fmt(s_), F.fshow(guard(s_))) for s_ in compact]})
+        tied = False
+        if len(compact) == 1 and match(["local", ANY], call_args(compact[0].expr)[0]):
+            tmp = call_args(compact[0].expr)[0]
+            lam_of = {}
+            for st in stmts(f.body):
+                if st.get("m") in ("SER_WRITE", "SER_READ") and st.get("k") == "expr" and is_expr(st.get("e")):
+                    lams = [x[1] for x in subexprs(st["e"]) if x[0] == "lambda"]
+                    if len(lams) == 1:
+                        lam_of.setdefault(st["m"], []).append((st.get("l"), P.fn(lams[0])))
+            w = [(l, g) for l, g in lam_of.get("SER_WRITE", []) if any(match(["b", "=", tmp, [".", ["param", ANY], "CAddress::nServices"]], x) for _, e in all_exprs(g.body) for x in subexprs(e))]
+            r = [(l, g) for l, g in lam_of.get("SER_READ", []) if any(x[0] == "b" and x[1] == "=" and match([".", ["param", ANY], "CAddress::nServices"], x[2]) and contains(tmp, x[3])
+                                                                       for _, e in all_exprs(g.body) for x in subexprs(e))]
+            tied = len(w) == 1 and len(r) == 1 and w[0][0] <= compact[0].line <= r[0][0]
+        ctx.ob("CAddress/services-v2-value", "PROVENANCE", "the value put through that formatter is a local copied from obj.nServices before writing (SER_WRITE) and cast back into "
+               "obj.nServices after reading (SER_READ)", tied, compact[0].where if compact else f.where)
+        fixed = [s_ for s_ in us if match(NS, call_args(s_.expr)[0])]
+        ok = len(fixed) == 1 and fmt(fixed[0]) == "CustomUintFormatter<8>" and F.equivalent(guard(fixed[0]), F.mk_not(V2))
+        ctx.ob("CAddress/services-v1-formatter", "TABLE", "in the V1 encoding, and only there, the service bits are the fixed 8-byte little-endian field (Using<CustomUintFormatter<8>>(obj.nServices))",
+               ok, fixed[0].where if fixed else f.where, {"formatters": [(s_.line, fmt(s_), F.fshow(guard(s_))) for s_ in fixed]})
+        tm = [s_ for s_ in us if match([".", ["param", obj], "CAddress::nTime"], call_args(s_.expr)[0])]
+        ok = len(tm) == 1 and fmt(tm[0]) == "LossyChronoFormatter<uint32_t>" and F.equivalent(guard(tm[0]), F.T)
+        ctx.ob("CAddress/time-formatter", "TABLE", "nTime is always transferred as a 32-bit count (Using<LossyChronoFormatter<uint32_t>>)", ok, tm[0].where if tm else f.where)
+        bad = [(l, show(v)) for l, v in v2vals if not (is_expr(v) and (v[0] == "bool" or (v[0] == "b" and v[1] == "==" and contains(["enum", "CNetAddr::Encoding::V2"], v))))]
+        ctx.ob("CAddress/encoding-selector", "PROVENANCE", "the V1/V2 selector is only ever a constant (disk format: decided by the stored version word) or `params.enc == Encoding::V2`",
+               bool(v2vals) and not bad, f.where, {"other_values": bad} if bad else None)
+
+
+def range_checked_compact_sizes(ctx, programs):
+    """COMPACTSIZE(x) == Using<CompactSizeFormatter<true>>(x) rejects values above MAX_SIZE on reading: legitimate for lengths and counts only.  A value that is
+    copied from or into an object field (in the function or the SER_READ/SER_WRITE lambdas it creates) is data, not a container length."""
+    n = 0
+    seen = set()
+    for P in programs:
+        for q, fl in P.funcs.items():
+            for f in fl:
+                if f.body is None or "::lambda@" in q:
+                    continue
+                for st, x, fm in _usings(f):
+                    if not fm.startswith("CompactSizeFormatter<") or (f.file, st.get("l")) in seen:
+                        continue
+                    seen.add((f.file, st.get("l")))
+                    n += 1
+                    a = call_args(x)[0]
+                    field_tied = False
+                    if match(["local", ANY], a):
+                        bodies = [f.body] + [g.body for q2, gl in P.funcs.items() if q2.startswith(q + "::lambda@") for g in gl if g.body is not None]
+                        for b in bodies:
+                            for _, e in all_exprs(b):
+                                for y in subexprs(e):
+                                    if y[0] == "b" and y[1] == "=" and ((match(a, y[2]) and is_expr(y[3]) and y[3][0] in (".", "umem")) or
+                                                                         (is_expr(y[2]) and y[2][0] in (".", "umem") and contains(a, y[3]))):
+                                        field_tied = True
+                    elif is_expr(a) and a[0] in (".", "umem"):
+                        field_tied = True
+                    ok = fm == "CompactSizeFormatter<false>" or not field_tied
+                    ctx.ob("compact-size-range-check/%s@L%s" % (q, st.get("l")), "TABLE", "a compact size that carries an object field's value (not a container length or count) is "
+                           "read without the MAX_SIZE range check (CompactSizeFormatter<false>, not COMPACTSIZE)", ok, "%s:%s" % (f.file, st.get("l")),
+                           {"formatter": fm, "operand": show(a), "carries_field_value": field_tied})
+    ctx.floor("CompactSizeFormatter uses in the loaded units", n, 3)
